@@ -1,5 +1,6 @@
 # C09 - bring-up never endangers the device and never serves from an unsafe state
 import os
+import zlib
 import json
 import random
 import socket
@@ -33,7 +34,8 @@ ASSUMPTIONS = [
 ]
 FLOORS = {"quick": {"evaluations": 5000, "served": 300, "unlock_sent": 500, "refused": 3000,
                     "live_runs": 20, "version_grid_cells": 300,
-                    "supports_contract_evaluations": 20000},
+                    "supports_contract_evaluations": 20000,
+                    "reconnections_to_an_unsafe_device": 60},
           "thorough": {"evaluations": 300000, "served": 30000, "unlock_sent": 30000,
                        "refused": 200000, "live_runs": 60, "version_grid_cells": 300,
                        "supports_contract_evaluations": 150000}}
@@ -282,10 +284,51 @@ def run_config(acc, c, tmpdir, live=False):
         if allowed and not n_unlock and not tcp_boot:
             return bad("unlock-not-attempted-although-required")
         acc.count("served" if served else "refused")
+        if served and not live and c["platform"] == "ledger" and \
+                zlib.crc32(key.encode()) % 4 == 0:
+            unsafe_after_reconnection(acc, c, s, dev, bad)
         if len(acc.samples) < 3 and (served or n_unlock):
             acc.sample({"config": c, "served": served, "unlock_commands": n_unlock,
                         "outcome": repr(exc) if exc else "initialize_device returned",
                         "apdu_cmds": [("%02x" % e["apdu"][1]) for e in apdus if e["apdu"]]})
+
+
+def unsafe_after_reconnection(acc, c, s, dev, bad):
+    """the manager is serving; the link fails; the device that is there afterwards is one
+    the bring-up would never accept (unsupported signer, not onboarded, locked with no
+    retries left), and the first repair attempt is cut short by a time-out or an error
+    status on one of its exchanges.  From then on no request may be served from it."""
+    from ..simdev.transport import Fault
+    rng = random.Random(zlib.crc32(json.dumps(c, sort_keys=True).encode()))
+    # (a command the simulated device answers in any configuration)
+    req = {"command": "blockchainParameters", "version": 5}
+    s.bus.arm({0: Fault(rng.choice(["read_error", "write_error"]))})
+    s.request(req)
+    s.bus.arm({})
+    dev.pending_link = None
+    how = rng.choice(["signer-version", "signer-version", "not-onboarded", "locked-no-retries"])
+    if how == "signer-version":
+        dev.cfg["signer_version"] = rng.choice([(5, 5, 0), (6, 0, 0), (4, 4, 1), (5, 4, 2)])
+    elif how == "not-onboarded":
+        dev.onboarded = False
+    else:
+        dev.mode = MODE_BOOTLOADER
+        dev.unlocked = False
+        dev.retries = 1
+    cut = rng.choice([None, (0x43, "timeout"), (0x06, "timeout"), (0x11, "sw"),
+                      (0x43, "sw"), (0x06, "sw")])
+    if cut:
+        s.bus.arm_cmd({cut[0]: Fault("timeout") if cut[1] == "timeout" else
+                       Fault("sw", sw=0x6B00)})
+    acc.count("reconnections_to_an_unsafe_device")
+    for k in range(3):
+        r, e, _ = s.request(req)
+        if e is None and isinstance(r, dict) and r.get("errorcode") == 0:
+            bad("served-from-unsafe-state:after-reconnection:%s" % how, request_no=k,
+                first_repair_cut_by=cut)
+            return
+        if e is not None:
+            return      # the manager stopped: fine
 
 
 def run_live(s):
